@@ -129,7 +129,7 @@ def run(ctx):
             text, kind = deep(r)
         else:
             text, kind = r.choice(["", "\n", "#", "# only a comment\n", "﻿", "e = enum { a; # trailing\n }"]), "empty-ish"
-        todo.append({"files": {"/w/m.djinni": text}, "root": "/w/m.djinni", "stream": stream, "mut": kind})
+        todo.append({"files": {"/w/m.djinni": text}, "root": "/w/m.djinni", "stream": stream, "mut": kind, "configured": i % 3 == 1})
     # raw bytes that are not valid UTF-8
     for i in range(ctx.n(12, 100)):
         r = random.Random(f"{ctx.seed}/c06/bytes/{i}")
@@ -213,14 +213,14 @@ def run(ctx):
         # ---- specification on the implementation's observation --------------------------------
         if impl["kind"] == "crash":
             ctx.report("internal-error:" + str(impl.get("site", "?")) + ":" + str(impl.get("exc")),
-                       "parsing ended in an internal Python exception", {"input": {"files": files, "root": t["root"]}, "impl": impl, "stream": t["stream"]})
+                       "parsing ended in an internal Python exception", {"input": {"files": files, "root": t["root"], "configured": bool(t.get("configured"))}, "impl": impl, "stream": t["stream"]})
         elif impl["kind"] == "hang":
-            ctx.report("hang", "parsing did not terminate within the wall-clock bound", {"input": {"files": files, "root": t["root"]}, "impl": impl})
+            ctx.report("hang", "parsing did not terminate within the wall-clock bound", {"input": {"files": files, "root": t["root"], "configured": bool(t.get("configured"))}, "impl": impl})
         else:
             bad = positions_ok(files, impl)
             if bad:
                 ctx.report("position-outside-file", "a diagnostic names a file or line/column that does not exist",
-                           {"input": {"files": files, "root": t["root"]}, "bad": bad[:3]})
+                           {"input": {"files": files, "root": t["root"], "configured": bool(t.get("configured"))}, "bad": bad[:3]})
         # ---- correspondence ------------------------------------------------------------------
         if mo[0] == "syntax":
             # outside the grammar the model only predicts "the tool's own diagnostics": a diagnostic list with a syntax
@@ -244,6 +244,6 @@ def strip(impl):
 
 def replay(ctx, body):
     inp = body["input"]
-    (impl, _), = front.run_many(ctx.tmp, [{"files": inp["files"], "root": inp["root"]}], per_input_timeout=20)
+    (impl, _), = front.run_many(ctx.tmp, [{"files": inp["files"], "root": inp["root"], "configured": bool(inp.get("configured"))}], per_input_timeout=20)
     print(json.dumps(strip(impl), indent=1)[:3000])
     return impl["kind"] in ("ok", "diags", "raised", "file-not-found") and not positions_ok(inp["files"], impl)
